@@ -28,7 +28,7 @@ theorem facts_guards :
        "(65<=_&&_<=90)||(97<=_&&_<=122)", "48<=_&&_<=57", "_!=nil",
        "_,_,_,abs,_=adjustFormulaOperandRef(_,_,_,abs,keepRelative,dir,num,offset);_!=nil"] ∧
     Facts.C07.guardsRef =
-      ["_.Scope==\"Workbook\"||_.Scope==sheet", "_.TType==efp.TokenTypeUnknown",
+      ["_.Scope==\"Workbook\"||_.Scope==sheet", "_.TType==efp.TokenTypeUnknown", "_,_:=_[_];_",
        "_.TType==efp.TokenTypeOperand&&_.TSubType==efp.TokenSubTypeRange",
        "inStrSlice(_,_.TValue,true)!=-1", "strings.ContainsAny(_.TValue,\"[]\")", "_!=nil",
        "_:=transformParenthesesToken(_);_!=\"\"",
@@ -38,6 +38,12 @@ theorem facts_guards :
       ["isFunctionStartToken(_)||isBeginParenthesesToken(_)", "isFunctionStopToken(_)||isEndParenthesesToken(_)"] ∧
     Facts.C07.guardsEscape =
       ["strings.IndexFunc(name,func{!unicode.IsLetter(_)&&!unicode.IsNumber(_)})!=-1||needQuoteSheetName(name)"] ∧
+    Facts.C07.guardsArray =
+      ["isFunctionStartToken(_)||isBeginParenthesesToken(_)",
+       "isFunctionStartToken(_)&&_.TValue==\"ARRAY\"&&isRowStart(_+1)",
+       "isRowStart(_)&&len(_)>0&&_[len(_)-1]==\"{\"",
+       "(isFunctionStopToken(_)||isEndParenthesesToken(_))&&len(_)>0", "_==\"{\"", "_==\";\"",
+       "_[_]=\"\";_+1<len(_)&&_[_+1].TType==efp.TokenTypeArgument&&isRowStart(_+2)"] ∧
     Facts.C07.guardsNeedQuote =
       ["name==\"\"", "_,_:=_.DecodeRuneInString(name);unicode.IsNumber(_)",
        "_,_,_:=CellNameToCoordinates(name);_==nil"] := by
@@ -461,36 +467,84 @@ theorem sheet_prefix_roundtrip (name cell : Str) :
 
 /-! ## Everything that is not an adjusted range operand is rendered back verbatim -/
 
-/-- the token loop is the concatenation of the per-token pieces -/
-theorem loop_pieces (env : Impl.Env) (toks : List Token) (f : Token → Str) (val : Str)
+/-- the token loop is the concatenation of the per-token pieces (tokens that are not punctuation of
+an array constant: all marks `none`) -/
+theorem loop_pieces (env : Impl.Env) (toks : List Token) (f : Token → Str) (val : Str) (ms : List (Option Str))
+    (hm : ∀ m ∈ ms, m = none)
     (hu : ∀ t ∈ toks, t.ty ≠ .unknown)
     (hp : ∀ t ∈ toks, pieceOf env t = .ok (f t)) :
-    Impl.adjustRefLoop env val toks = (val ++ (toks.map f).flatten, none) := by
-  induction toks generalizing val with
+    Impl.adjustRefLoop env val ms toks = (val ++ (toks.map f).flatten, none) := by
+  induction toks generalizing val ms with
   | nil => simp [Impl.adjustRefLoop]
   | cons t ts ih =>
     have hu' : ∀ t ∈ ts, t.ty ≠ .unknown := fun x hx => hu x (by simp [hx])
     have hp' : ∀ t ∈ ts, pieceOf env t = .ok (f t) := fun x hx => hp x (by simp [hx])
     have hnu : t.ty ≠ .unknown := hu t (by simp)
     have h := hp t (by simp)
+    have hh : ms.headD none = none := by
+      cases ms with
+      | nil => rfl
+      | cons m _ => simpa using hm m (by simp)
+    have hm' : ∀ m ∈ ms.tail, m = none := fun m hx => hm m (List.mem_of_mem_tail hx)
     unfold Impl.adjustRefLoop
-    simp only [hnu, if_false]
+    simp only [hnu, if_false, hh]
     unfold pieceOf at h
     by_cases hr : t.ty = .operand ∧ t.sub = .range
     · simp only [hr, and_self, if_true] at h ⊢
       by_cases hn : env.names.contains t.tv = true
       · simp only [hn, if_true, Except.ok.injEq] at h ⊢
-        rw [ih _ hu' hp', h]; simp
+        rw [ih _ _ hm' hu' hp', h]; simp
       · simp only [hn, Bool.false_eq_true, if_false] at h ⊢
         by_cases hb : Impl.containsBracket t.tv = true
         · simp only [hb, if_true, Except.ok.injEq] at h ⊢
-          rw [ih _ hu' hp', h]; simp
+          rw [ih _ _ hm' hu' hp', h]; simp
         · simp only [hb, Bool.false_eq_true, if_false] at h ⊢
           rw [h]
           simp only []
-          rw [ih _ hu' hp']; simp
+          rw [ih _ _ hm' hu' hp']; simp
     · simp only [hr, if_false, Except.ok.injEq] at h ⊢
-      rw [ih _ hu' hp', h]; simp
+      rw [ih _ _ hm' hu' hp', h]; simp
+
+/-- without an `ARRAY(` pseudo-function token no token is treated as array punctuation -/
+theorem arrayMarks_none (toks : List Token) (st : List Impl.AKind)
+    (hna : ∀ t ∈ toks, Impl.isArrayStart t = false) (hst : ∀ k ∈ st, k = Impl.AKind.paren) :
+    ∀ m ∈ Impl.arrayMarks st none toks, m = none := by
+  induction toks generalizing st with
+  | nil => simp [Impl.arrayMarks]
+  | cons t ts ih =>
+    have hna' : ∀ t ∈ ts, Impl.isArrayStart t = false := fun x hx => hna x (by simp [hx])
+    have h0 : Impl.isArrayStart t = false := hna t (by simp)
+    have hhead : (st.head? == some Impl.AKind.arr) = false := by
+      cases st with
+      | nil => rfl
+      | cons k _ => have := hst k (by simp); subst this; rfl
+    unfold Impl.arrayMarks
+    by_cases h1 : Impl.isStartTok t = true
+    · simp only [h1, if_true, h0, Bool.false_and, Bool.false_eq_true, if_false, hhead, Bool.and_false]
+      intro m hm
+      rcases List.mem_cons.mp hm with rfl | hm
+      · rfl
+      · exact ih _ hna' (by intro k hk; rcases List.mem_cons.mp hk with rfl | hk; rfl; exact hst k hk) m hm
+    · simp only [h1, Bool.false_eq_true, if_false]
+      by_cases h2 : Impl.isStopTok t = true
+      · simp only [h2, if_true]
+        cases st with
+        | nil =>
+          intro m hm
+          rcases List.mem_cons.mp hm with rfl | hm
+          · rfl
+          · exact ih _ hna' (by simp) m hm
+        | cons k st' =>
+          have := hst k (by simp); subst this
+          intro m hm
+          rcases List.mem_cons.mp hm with rfl | hm
+          · rfl
+          · exact ih _ hna' (fun k hk => hst k (by simp [hk])) m hm
+      · simp only [h2, Bool.false_eq_true, if_false]
+        intro m hm
+        rcases List.mem_cons.mp hm with rfl | hm
+        · rfl
+        · exact ih _ hna' hst m hm
 
 /-- **nonref_tokens_verbatim** — clause "string literals and function names are preserved
 verbatim" and the coordinator's "everything else is rendered back verbatim": a token that is not a
@@ -522,8 +576,8 @@ theorem defined_name_verbatim (env : Impl.Env) (tv : Str) (h : env.names.contain
   simp only [pieceOf, h, and_self, if_true]
 
 /-- a formula with a token efp cannot classify is returned unchanged -/
-theorem unknown_token_keeps_formula (env : Impl.Env) (val : Str) (t : Token) (ts : List Token)
-    (h : t.ty = .unknown) : Impl.adjustRefLoop env val (t :: ts) = (env.formula, none) := by
+theorem unknown_token_keeps_formula (env : Impl.Env) (val : Str) (ms : List (Option Str)) (t : Token) (ts : List Token)
+    (h : t.ty = .unknown) : Impl.adjustRefLoop env val ms (t :: ts) = (env.formula, none) := by
   simp [Impl.adjustRefLoop, h]
 
 /-- **formula_rewrite_correct** — the whole token loop on a formula all of whose range operands are
@@ -531,7 +585,7 @@ unprefixed references of the grammar on the edited sheet: the output is the conc
 relocated references and the verbatim renderings of all other tokens. -/
 theorem formula_rewrite_correct (sheet : Str) (e : Edit) (formula : Str)
     (toks : List Token) (refs : Token → Option (Spec.Ref × Spec.Ref))
-    (hu : ∀ t ∈ toks, t.ty ≠ .unknown)
+    (hu : ∀ t ∈ toks, t.ty ≠ .unknown) (hna : ∀ t ∈ toks, Impl.isArrayStart t = false)
     (hrefs : ∀ t ∈ toks, t.ty = .operand ∧ t.sub = .range →
       ∃ r r', refs t = some (r, r') ∧ t.tv = Spec.render r ∧ Spec.inGrid r ∧
         Spec.shiftRef false e r = some r' ∧ Spec.inGrid r') :
@@ -543,7 +597,8 @@ theorem formula_rewrite_correct (sheet : Str) (e : Edit) (formula : Str)
   have := loop_pieces ⟨sheet, sheet, false, e, [], formula⟩ toks
     (fun t => match refs t with
           | some (_, r') => if t.ty = .operand ∧ t.sub = .range then Spec.render r' else Impl.verbatim t
-          | none => Impl.verbatim t) [] hu ?_
+          | none => Impl.verbatim t) [] (Impl.arrayMarks [] none toks)
+    (arrayMarks_none toks [] hna (by simp)) hu ?_
   · simpa using this
   · intro t ht
     by_cases hr : t.ty = .operand ∧ t.sub = .range
@@ -837,16 +892,21 @@ example : refsAll (goodKey ⟨.rows, 4, 2⟩)
 
 /-! ## Where the current code does not satisfy the full statement -/
 
-/-- **finding_array_constant_rewritten** (open) — "every token shape the tokenizer can produce":
-an array constant `{1}` is tokenised by efp as pseudo-functions `ARRAY(ARRAYROW(...))`, and the
-token loop re-emits those names: the formula text `{1}` becomes `ARRAY(ARRAYROW(1))` on any
-row/column insert or delete (no reference involved). -/
-theorem finding_array_constant_rewritten :
-    Impl.adjustRef ⟨['S'], ['S'], false, ⟨.rows, 1, 1⟩, [], ['{', '1', '}']⟩
-      [⟨['A','R','R','A','Y'], .function, .start⟩, ⟨['A','R','R','A','Y','R','O','W'], .function, .start⟩,
-       ⟨['1'], .operand, .number⟩, ⟨[], .function, .stop⟩, ⟨[], .function, .stop⟩]
-      = (['A','R','R','A','Y','(','A','R','R','A','Y','R','O','W','(','1',')',')'], none) := by
-  decide
+/-- **array_constant_verbatim** (repaired in the repository; was `finding_array_constant_rewritten`) —
+"every token shape the tokenizer can produce": efp tokenises an array constant as pseudo-functions
+`ARRAY(ARRAYROW(…),ARRAYROW(…))`; the token loop renders them back as braces and row separators:
+the tokens of `SUM({1,2;3})+A3` come back as `SUM({1,2;3})+A4` (before the repair:
+`SUM(ARRAY(ARRAYROW(1,2),ARRAYROW(3)))+A4`), while an ordinary function call keeps its parentheses. -/
+theorem array_constant_verbatim :
+    Impl.adjustRef ⟨['S'], ['S'], false, ⟨.rows, 3, 1⟩, [], []⟩
+      [⟨['S','U','M'], .function, .start⟩,
+       ⟨['A','R','R','A','Y'], .function, .start⟩, ⟨['A','R','R','A','Y','R','O','W'], .function, .start⟩,
+       ⟨['1'], .operand, .number⟩, ⟨[','], .argument, .none⟩, ⟨['2'], .operand, .number⟩, ⟨[], .function, .stop⟩,
+       ⟨[','], .argument, .none⟩, ⟨['A','R','R','A','Y','R','O','W'], .function, .start⟩,
+       ⟨['3'], .operand, .number⟩, ⟨[], .function, .stop⟩, ⟨[], .function, .stop⟩, ⟨[], .function, .stop⟩,
+       ⟨['+'], .infix, .math⟩, ⟨['A','3'], .operand, .range⟩]
+      = (['S','U','M','(','{','1',',','2',';','3','}',')','+','A','4'], none) := by
+  decide +kernel
 
 /-- **finding_sheet_prefix_requoted** (open, narrowed by a repair) — "quoted sheet names are preserved
 verbatim" holds only up to re-quoting: efp drops the quotes and `escapeSheetName` decides anew from
